@@ -130,6 +130,11 @@ pub enum E {
     Cmp(Cmp, Box<E>, Box<E>),
     /// f-string: literal segments and expression segments (must evaluate to values string() accepts)
     FStr(Vec<FSeg>),
+    /// the wall clock: `now()` (false) or zero-argument `timestamp()` (true)
+    Now(bool),
+    /// call by name `name(args)`: a function bound under that name wins over a macro
+    /// (has/coalesce) and a type constructor (C12)
+    NCall(String, Vec<E>),
 }
 
 #[derive(Clone, Debug, PartialEq, Eq, Serialize, Deserialize)]
@@ -247,6 +252,12 @@ impl E {
             ),
             E::Add(a, b) => format!("{} + {}", a.atom(flat), b.atom(flat)),
             E::Cmp(op, a, b) => format!("{} {} {}", a.atom(flat), op.sym(), b.atom(flat)),
+            E::Now(ts) => (if *ts { "timestamp()" } else { "now()" }).to_string(),
+            E::NCall(n, args) => format!(
+                "{}({})",
+                n,
+                args.iter().map(|a| a.render(flat)).collect::<Vec<_>>().join(", ")
+            ),
             E::FStr(segs) => {
                 let mut s = String::from("f\"");
                 for seg in segs {
@@ -268,7 +279,7 @@ impl E {
     fn atom(&self, flat: bool) -> String {
         match self {
             E::Lit(_) | E::FailLit(_) | E::Var(_) | E::Call(..) | E::Prog(_) | E::BoolOf(_) | E::Has(_)
-            | E::Coalesce(_) | E::List(_) | E::MapLit(_) | E::FStr(_) | E::Member(..) | E::Index(..)
+            | E::Coalesce(_) | E::List(_) | E::MapLit(_) | E::FStr(_) | E::Member(..) | E::Index(..) | E::Now(_) | E::NCall(..)
             | E::Macro(..) | E::Reduce(..) => self.render(flat),
             _ => format!("({})", self.render(flat)),
         }
@@ -319,14 +330,16 @@ impl E {
             E::Add(a, b) => format!("add({},{})", a.skeleton(), b.skeleton()),
             E::Cmp(op, a, b) => format!("cmp{}({},{})", op.sym(), a.skeleton(), b.skeleton()),
             E::FStr(s) => format!("fstr/{}", s.len()),
+            E::Now(_) => "now".into(),
+            E::NCall(n, a) => format!("ncall:{}/{}", n, a.len()),
         }
     }
 
     /// visit every direct child
     pub fn children(&self) -> Vec<&E> {
         match self {
-            E::Lit(_) | E::FailLit(_) | E::Var(_) | E::Prog(_) => vec![],
-            E::Call(_, a) => a.iter().collect(),
+            E::Lit(_) | E::FailLit(_) | E::Var(_) | E::Prog(_) | E::Now(_) => vec![],
+            E::Call(_, a) | E::NCall(_, a) => a.iter().collect(),
             E::Not(a) | E::BoolOf(a) | E::Has(a) => vec![a],
             E::Or(a, b) | E::And(a, b) | E::Add(a, b) | E::Index(a, b) | E::Cmp(_, a, b) => vec![a, b],
             E::Tern(c, x, y) => vec![c, x, y],
@@ -399,6 +412,12 @@ pub struct EnvCase {
     /// a violation found that way is re-confirmed with threads before it is reported)
     #[serde(default = "yes")]
     pub threads: bool,
+    /// functions bound under arbitrary names (collisions with macros, types, variables): name -> answer
+    #[serde(default)]
+    pub named: BTreeMap<String, Answer>,
+    /// simulated wall clock (ns since the epoch) during the exec, if the case fixes one
+    #[serde(default)]
+    pub clock_ns: Option<i64>,
 }
 
 fn yes() -> bool {
